@@ -368,7 +368,17 @@ NewLastHeaders(s, m) ==
     IN IF c = LastN THEN [ok |-> TRUE, v |-> new]
        ELSE IF c > LastN THEN [ok |-> TRUE, v |-> SeqTail(new, LastN)]
        ELSE IF HasProof(s)
-            THEN LET old == IF rg = <<>> THEN s.pLastN ELSE rg IN
+            THEN LET old0 == IF rg = <<>> THEN s.pLastN ELSE rg
+                     \* the request may start at a remembered header below the previous last one: the new headers
+                     \* then overlap the old ones, and replace them after a fork; only the old headers below the
+                     \* first new one, and only if that one extends them, are kept
+                     cnt == IF new = <<>> THEN Len(old0)
+                            ELSE Cardinality({i \in 1..Len(old0) :
+                                     \A j \in 1..i : Num(world, old0[j]) < Num(world, new[1])})
+                     old == IF new = <<>> THEN old0
+                            ELSE IF cnt > 0 /\ IsParentOf(world, old0[cnt], new[1]) THEN SubSeq(old0, 1, cnt)
+                            ELSE <<>>
+                 IN
                  IF old = <<>> THEN [ok |-> TRUE, v |-> new]
                  ELSE [ok |-> TRUE, v |-> SeqTail(old, LastN - c) \o new]
        ELSE IF rg = <<>> THEN [ok |-> TRUE, v |-> new]
@@ -376,10 +386,21 @@ NewLastHeaders(s, m) ==
             THEN [ok |-> TRUE, v |-> SeqTail(rg, LastN - c) \o new]
        ELSE [ok |-> FALSE, v |-> <<>>]
 
-\* commit_prove_state's fork detection against the stored last-N headers
-ForkNums(rg) ==
-    {Num(world, rg[i]) : i \in {j \in 1..Len(rg) :
-        \E k \in 1..Len(lastN) : lastN[k] = <<Num(world, rg[j]), rg[j]>>}}
+\* commit_prove_state's fork detection against the stored last-N headers.  The stored list is collected into a
+\* map by number (a later entry of the same number replaces an earlier one), and the new headers are scanned
+\* from the last one backwards: the first one found in the map is the fork point.  (On a well-formed list this
+\* is the highest common number; the list is not always well formed -- NewLastHeaders pads a short list with the
+\* tail of the previous one, which belongs to another branch after a reorganisation of a chain shorter than LastN.)
+OldAt(n) ==
+    LET ks == {k \in 1..Len(lastN) : lastN[k][1] = n} IN
+    IF ks = {} THEN NoBlock ELSE lastN[CHOOSE k \in ks : \A j \in ks : j <= k][2]
+
+RECURSIVE LastMatch(_)
+\* -1: none
+LastMatch(hs) ==
+    IF hs = <<>> THEN -1
+    ELSE LET h == hs[Len(hs)] IN
+         IF OldAt(Num(world, h)) = h THEN Num(world, h) ELSE LastMatch(SubSeq(hs, 1, Len(hs) - 1))
 
 SetMax(S) == CHOOSE n \in S : \A k \in S : k <= n
 
@@ -387,13 +408,13 @@ SetMax(S) == CHOOSE n \in S : \A k \in S : k <= n
 \* kind: "none" | "one" (previous tip is block#1: roll back to 1) | "to" (fork point f) | "long"
 ForkDecision(rg, nl) ==
     IF rg # <<>>
-    THEN IF ForkNums(rg) # {} THEN [long |-> FALSE, kind |-> "to", f |-> SetMax(ForkNums(rg))]
+    THEN IF LastMatch(rg) >= 0 THEN [long |-> FALSE, kind |-> "to", f |-> LastMatch(rg)]
          ELSE [long |-> TRUE, kind |-> "long", f |-> 0]
     ELSE IF Num(world, tip) = 1 THEN [long |-> FALSE, kind |-> "one", f |-> 0]
     ELSE IF \E i \in 1..Len(nl) : Num(world, nl[i]) = Num(world, tip) /\ nl[i] # tip
     THEN \* the previous tip is replaced on the new chain although no reorg section was returned
          LET below == SelectSeq(nl, LAMBDA h : Num(world, h) < Num(world, tip)) IN
-         IF ForkNums(below) # {} THEN [long |-> FALSE, kind |-> "to", f |-> SetMax(ForkNums(below))]
+         IF LastMatch(below) >= 0 THEN [long |-> FALSE, kind |-> "to", f |-> LastMatch(below)]
          ELSE [long |-> TRUE, kind |-> "long", f |-> 0]
     ELSE [long |-> FALSE, kind |-> "none", f |-> 0]
 
